@@ -229,7 +229,10 @@ func (g *c07Gen) acct(best uint32) c07Acct {
 	default:
 		a.State = uint8(g.n(10))
 	}
-	if g.n(100) < 78 {
+	if x := g.n(100); x < 14 {
+		// the boundary between the cooperative and the expiry path
+		a.Expiry = clamp32(int64(best) + g.i64(-1, 2))
+	} else if x < 80 {
 		a.Expiry = clamp32(int64(best) + g.i64(1, 5000))
 	} else {
 		a.Expiry = clamp32(int64(best) - g.i64(0, 2000))
@@ -317,6 +320,23 @@ func (g *c07Gen) genOp() *c07Case {
 		cs.Kind = "withdraw"
 		cs.ExpH = g.expH(best, true)
 		cs.Outs = g.outs(5, cs.Acct.Value)
+		if g.n(100) < 4 && len(cs.Outs) > 0 && cs.Acct.Ctr < 8 {
+			// a requested output that reuses the NEXT account script
+			// (same keys, batch key + 1, new expiry / version)
+			v, x := cs.Acct.Version, cs.Acct.Expiry
+			if cs.NewVer > v {
+				v = cs.NewVer
+			}
+			if cs.ExpH != 0 {
+				x = cs.ExpH
+			}
+			i := g.n(len(cs.Outs))
+			cs.Outs[i].S = hex.EncodeToString(g.e.script(v, x, cs.Acct.Ctr+1))
+			if g.n(2) == 0 {
+				cs.Outs[i].V = g.i64(1000, 90000)
+			}
+			g.r.Count("withdraw/twin-script")
+		}
 	case x < 49:
 		cs.Kind = "renew"
 		cs.ExpH = g.expH(best, false)
